@@ -1,5 +1,6 @@
 """C05 - container layout interoperates both ways with an independent implementation."""
 import glob
+import hashlib
 import io
 import json
 import os
@@ -146,6 +147,14 @@ class C05(Check):
         d = os.path.join(env.repo_path(), "tests", "avro-files")
         for p in sorted(glob.glob(os.path.join(d, "*.avro"))):
             yield {"kind": "fixture", "path": os.path.relpath(p, env.repo_path())}
+        # one block holding the same 20000 incompressible bytes three times: back-references span more than half of the
+        # 32 KiB deflate window (a decoder opened with a smaller window cannot follow them); written by the reference
+        big = hashlib.shake_256(b"verif").digest(20000)
+        enc = B.encode({"k": "bytes"}, {}, big)[0]
+        for level in (6, 9):
+            data, layout = RC.write([([("avro.schema", b'"bytes"'), ("avro.codec", b"deflate")], False)], b"S" * 16, [(3, enc * 3)], "deflate", {"level": level})
+            yield {"kind": "ref2fa", "schema": "bytes", "file": data, "expected": [big] * 3, "layout": [list(x) for x in layout], "codec": "deflate",
+                   "facts": {"empty": False, "chunks": 1, "neg": False, "key": True}}
         yield {"kind": "isavro", "data": b"", "as_path": True}
         yield {"kind": "isavro", "data": b"Obj", "as_path": False}
         yield {"kind": "isavro", "data": b"Obj\x01", "as_path": True}
